@@ -16,6 +16,11 @@
 //! | Gus | concept     | Preference | secret   | 6    | alpha ugus                |
 //! | P1  | proposition | prefers    | public   |      | (Ann prefers Bob)         |
 //! | P2  | proposition | prefers    | secret   |      | (Cat prefers Dan)         |
+//! | A1  | assertion   |            | public   | 0.9  | Ann supports P1 (stated)  |
+//! | A2  | assertion   |            | secret   | 0.9  | Cat rejects P1 (stated)   |
+//!
+//! The two Assertions give P1 a projection: the owner sees support and
+//! opposition, a reader below `secret` must see the belief A1 alone supports.
 //!
 //! Every readable set the configuration alphabet can produce is closed under
 //! "a readable Proposition's endpoints are readable" (P1 ⊂ public ⊂ internal,
@@ -32,6 +37,7 @@ use crate::fixture::{error_code, error_message, exec, space_seq};
 pub enum Kind {
     Concept,
     Proposition,
+    Assertion,
 }
 
 #[derive(Clone, Copy, Debug)]
@@ -56,6 +62,11 @@ const fn p(key: &'static str, class: &'static str, subj: &'static str, obj: &'st
     El { key, kind: Kind::Proposition, ty: "prefers", class, rank: 0, words: "", subj, obj }
 }
 
+/// `subj` = the Proposition, `obj` = the asserting actor, `words` = stance, `rank` = confidence x 10.
+const fn a(key: &'static str, class: &'static str, prop: &'static str, by: &'static str, stance: &'static str) -> El {
+    El { key, kind: Kind::Assertion, ty: "", class, rank: 9, words: stance, subj: prop, obj: by }
+}
+
 pub const POP: &[El] = &[
     c("Ann", "Person", "public", 3, "alpha beta uann"),
     c("Bob", "Person", "public", 1, "beta ubob"),
@@ -66,9 +77,11 @@ pub const POP: &[El] = &[
     c("Gus", "Preference", "secret", 6, "alpha ugus"),
     p("P1", "public", "Ann", "Bob"),
     p("P2", "secret", "Cat", "Dan"),
+    a("A1", "public", "P1", "Ann", "support"),
+    a("A2", "secret", "P1", "Cat", "reject"),
 ];
 
-pub const N: usize = 9;
+pub const N: usize = 11;
 pub const PKG: &str = "kip://profiles/cognitive-memory@2.0.0/";
 
 pub fn index_of(key: &str) -> usize {
@@ -80,10 +93,12 @@ impl El {
         match self.kind {
             Kind::Concept => "concept",
             Kind::Proposition => "proposition",
+            Kind::Assertion => "assertion",
         }
     }
+    /// An Assertion is typed by its Proposition, not by a symbol of its own.
     pub fn schema_ref(&self) -> String {
-        format!("{PKG}{}", self.ty)
+        if self.kind == Kind::Assertion { String::new() } else { format!("{PKG}{}", self.ty) }
     }
     /// The label the decision sees ("" resolves to the Space default).
     pub fn effective_class(&self) -> &'static str {
@@ -97,7 +112,7 @@ impl El {
                 format!("\"{}\"", self.key),
                 format!("u{}", self.key.to_lowercase()),
             ],
-            Kind::Proposition => vec![format!("\u{ab}{}\u{bb}", self.key)],
+            Kind::Proposition | Kind::Assertion => vec![format!("\u{ab}{}\u{bb}", self.key)],
         }
     }
 }
@@ -140,6 +155,18 @@ pub async fn build(nexus: &CognitiveNexus, include: &[bool; N], masked: &[bool; 
                         None,
                     )
                 }
+            }
+            Kind::Assertion => {
+                let mut params = Map::new();
+                params.insert("p".into(), serde_json::json!(built.id_of[el.subj]));
+                params.insert("a".into(), serde_json::json!({"id": built.id_of[el.obj]}));
+                (
+                    format!(
+                        r#"CREATE ASSERTION ?x {{ SET FIELDS {{proposition: :p, asserted_by: :a, stance: "{}", mode: "stated", confidence: 0.{}}} }}"#,
+                        el.words, el.rank
+                    ),
+                    Some(params),
+                )
             }
             Kind::Proposition => {
                 let mut params = Map::new();
